@@ -762,7 +762,7 @@ func TestVerifC17(t *testing.T) {
 	}
 	r.Rule("BFS over operation histories on the real bytes trie and object trie over a MapDB, one search per bound: " + strings.Join(rule, "; ") +
 		". Values: 1 byte (embedded nodes) and 40 bytes (hashed nodes). Trie-level ops: GetSnapshot->stash, Reset(stash), stash.Flush, reload from stash hash, ClearCache of mutable / stash, Get of every key, and three macros (snapshot+flush, +reload, +ClearCache). At the end of every history: Get of every key, Empty, Hash (canonicity table model<->root shared by all histories and both flavours), Iterator and Filter for " + strconv.Itoa(len(c17Prefixes)) +
-		" prefixes on a fresh snapshot and on a trie reopened from the root hash after Flush; Get/Hash/Iterator on the stashed snapshot and again after ClearCache. Distinct non-trivial = distinct canonical state (model maps + shape and node states of the real node graphs incl. sharing + set of stored node hashes)")
+		" prefixes on a fresh snapshot and on a trie reopened from the root hash after Flush; Get/Hash/Iterator on the stashed snapshot and again after ClearCache. In addition (both tiers) a directed family of 61 056 histories over the full 9-key universe: insert 1-2 keys, GetSnapshot->stash, insert 1-2 other keys, delete all of the first or all of the second group in both orders (1-byte or 40-byte values, both flavours), with the same end-of-history observation (snapshot isolation under node split and collapse). Distinct non-trivial = distinct canonical state (model maps + shape and node states of the real node graphs incl. sharing + set of stored node hashes)")
 	r.Assume("values are non-empty (the trie does not support empty values: a branch value of length 0 is dropped on decode)",
 		"single goroutine; database = MapDB that never fails; no node cache attached",
 		"states are de-duplicated on a 128-bit hash of the canonical state string",
@@ -797,6 +797,89 @@ func TestVerifC17(t *testing.T) {
 			"depth_completed": st.DepthDone, "complete": st.Complete, "states": st.States, "transitions": st.Transitions, "new_states_per_depth": st.PerDepth})
 	}
 	st := total
+	// Directed family (both tiers): snapshot isolation under structural change.
+	// insert A (1-2 keys), GetSnapshot->stash, insert B (1-2 other keys, which may
+	// split the nodes the snapshot shares), then delete all of A or all of B (which
+	// collapses the new nodes back, possibly onto the other side). Full 9-key
+	// universe, one value (1-byte or 40-byte) per history, both flavours; the usual
+	// end-of-history observation checks the stashed snapshot and canonicity.
+	dAlpha := &c17Alphabet{keys: c17AllKeys, vals: c17AllVals}
+	var directed [][]byte
+	{
+		nk, nv := len(dAlpha.keys), len(dAlpha.vals)
+		setOp := func(k, v int) byte { return byte(k*nv + v) }
+		delOp := func(k int) byte { return byte(nk*nv + k) }
+		snapOp := byte(nk*nv + nk + c17Snap)
+		var seqs [][]int // ordered key lists of length 1..2
+		for a := 0; a < nk; a++ {
+			seqs = append(seqs, []int{a})
+			for b := 0; b < nk; b++ {
+				if b != a {
+					seqs = append(seqs, []int{a, b})
+				}
+			}
+		}
+		disjoint := func(x, y []int) bool {
+			for _, i := range x {
+				for _, j := range y {
+					if i == j {
+						return false
+					}
+				}
+			}
+			return true
+		}
+		for fl := 0; fl < 2; fl++ {
+			for v := 0; v < 2; v++ {
+				for _, A := range seqs {
+					for _, B := range seqs {
+						if !disjoint(A, B) {
+							continue
+						}
+						for which := 0; which < 2; which++ {
+							del := A
+							if which == 1 {
+								del = B
+							}
+							// deletions in ascending index order of the ordered list and reversed
+							for rev := 0; rev < len(del); rev++ {
+								h := []byte{byte(fl)}
+								for _, k := range A {
+									h = append(h, setOp(k, v))
+								}
+								h = append(h, snapOp)
+								for _, k := range B {
+									h = append(h, setOp(k, v))
+								}
+								for i := range del {
+									k := del[i]
+									if rev == 1 {
+										k = del[len(del)-1-i]
+									}
+									h = append(h, delOp(k))
+								}
+								directed = append(directed, h)
+							}
+						}
+					}
+				}
+			}
+		}
+	}
+	var dirDone int64
+	ev.Par(len(directed), 0, func(i int) {
+		if r.Expired() || r.Violations() > 20 {
+			return
+		}
+		key, _ := c17Run(sh, dAlpha, directed[i])
+		r.Nontrivial("d:" + key)
+		atomic.AddInt64(&dirDone, 1)
+	})
+	r.Set("directed_snapshot_split_collapse_histories", dirDone)
+	if int(dirDone) != len(directed) {
+		st.Complete = false
+	}
+	st.Replays += int(dirDone)
 	for _, c := range samples {
 		r.Sample(map[string]interface{}{"history": c.String(), "ops": c.Ops})
 	}
